@@ -17,6 +17,9 @@ from vlib.gen import make_r_sub, split_top, Ctx, r_attr, r_cfg
 
 F = "src/value.rs"
 P12, P18 = ["C12"], ["C18"]
+# C15 (a clone is EQUAL to its source, a taken statement equal to the statement before): needs == to be reflexive on every value a statement
+# can hold - under hashable-value Value::eq is hand-written, so its contract and lemma_eqv_reflexive carry C15 too
+P15 = ["C15"]
 ALL = {"derive", "backend-mysql", "backend-postgres", "backend-sqlite", "hashable-value", "postgres-array", "postgres-vector", "postgres-interval",
        "with-chrono", "with-json", "with-rust_decimal", "with-bigdecimal", "with-uuid", "with-time", "with-ipnetwork", "with-mac_address"}
 
@@ -284,9 +287,9 @@ def build(u):
     r_peq = make_r_sub("R-eq", r"\b([a-z_]+) == ([a-z_]+)\b", r"vpeq(\1, \2)")
     u.emit("impl Value {\n")
     # Option<T>::try_from decides `absent` with Value's ==: under hashable-value that is this eq, so C12 rests on it too
-    u.fn(F, "impl PartialEq for Value", "eq", ret="r", props=P18 + P12, key="PartialEq for Value::eq", vpath="Value::eq",
+    u.fn(F, "impl PartialEq for Value", "eq", ret="r", props=P18 + P12 + P15, key="PartialEq for Value::eq", vpath="Value::eq",
          rules=[r_path, r_peq],
-         spec=[("ensures\n    // equal iff same variant and equal payloads (eqv is generated from the enum: a variant without an arm here fails)\n    r == eqv(*self, *other),", P18 + P12)])
+         spec=[("ensures\n    // equal iff same variant and equal payloads (eqv is generated from the enum: a variant without an arm here fails)\n    r == eqv(*self, *other),", P18 + P12 + P15)])
     u.fn(F, "impl Hash for Value", "hash", props=P18 + ["MODEL"], key="Hash for Value::hash", vpath="Value::hash",
          rules=[r_path, make_r_sub("R-generic", r"fn hash<H: std::hash::Hasher>\(&self, state: &mut H\)", "fn hash(&self, state: &mut VHasher)"),
                 make_r_sub("R-hash", r"mem::discriminant\(self\)\.hash\(state\)", "vhash_disc(self, state)"),
@@ -294,14 +297,14 @@ def build(u):
          spec=[("ensures final(state).tr@ =~= old(state).tr@ + hash_events(*self),", ["MODEL"])])
     u.emit("}\n")
     for w, ft in (("32", "f32"), ("64", "f64")):
-        u.fn(F, H, "cmp_f" + w, ret="r_", props=P18 + P12, key="hashable_value::cmp_f" + w, vpath="cmp_f" + w, params=["l", "r"],
+        u.fn(F, H, "cmp_f" + w, ret="r_", props=P18 + P12 + P15, key="hashable_value::cmp_f" + w, vpath="cmp_f" + w, params=["l", "r"],
              rules=[make_r_sub("R-eq", r"OrderedFloat\(\*l\)\.eq\(&OrderedFloat\(\*r\)\)", "vof_eq(*l, *r)")],
              spec="ensures r_ == (match (*l, *r) { (Some(a), Some(b)) => ofeq(a, b), (None, None) => true, _ => false }),")
         u.fn(F, H, "hash_f" + w, props=P18 + ["MODEL"], key="hashable_value::hash_f" + w, vpath="hash_f" + w, params=["v", "state"],
              rules=[make_r_sub("R-generic", r"fn hash_f%s<H: Hasher>\(v: &Option<%s>, state: &mut H\)" % (w, ft), "fn hash_f%s(v: &Option<%s>, state: &mut VHasher)" % (w, ft)),
                     make_r_sub("R-hash", r"OrderedFloat\(\*v\)\.hash\(state\)", "vof_hash(*v, state)"), make_r_sub("R-hash", r'"null"\.hash\(state\)', 'vhash_str("null", state)')],
              spec=[("ensures final(state).tr@ =~= old(state).tr@ + (match *v { Some(f) => seq![HEv::OKey(ofkey(f))], None => seq![HEv::Str(\"null\"@)] }),", ["MODEL"])])
-    u.fn(F, H, "cmp_json", ret="r_", props=P18 + P12, key="hashable_value::cmp_json", vpath="cmp_json", params=["l", "r"],
+    u.fn(F, H, "cmp_json", ret="r_", props=P18 + P12 + P15, key="hashable_value::cmp_json", vpath="cmp_json", params=["l", "r"],
          rules=[make_r_sub("R-eq", r"serde_json::to_string\(l\)\s*\.unwrap\(\)\s*\.eq\(&serde_json::to_string\(r\)\.unwrap\(\)\)", "vstr_eq(&vjson_str(l), &vjson_str(r))")],
          spec="ensures r_ == (match (*l, *r) { (Some(a), Some(b)) => json_text(*a) == json_text(*b), (None, None) => true, _ => false }),")
     u.fn(F, H, "hash_json", props=P18 + ["MODEL"], key="hashable_value::hash_json", vpath="hash_json", params=["v", "state"],
@@ -314,7 +317,7 @@ fn cmp_vector(l: &Option<Box<PgVector>>, r: &Option<Box<PgVector>>) -> (b: bool)
 #[verifier::external_body]
 fn hash_vector(v: &Option<Box<PgVector>>, state: &mut VHasher) ensures final(state).tr@ == old(state).tr@.push(HEv::Key(hkey(*v))) { unimplemented!() }
 """, "value::vector-helpers(ASSUMED: cmp_vector / hash_vector are an equivalence / a key function of it)", props=P18)
-    u.spec(C18_LEMMAS, "value::c18-lemmas", props=P18)
+    u.spec(C18_LEMMAS, "value::c18-lemmas", props=P18 + P15)
     # value tuples as keys: ValueTuple's PartialEq, Eq and Hash are all DERIVED (structural over Value's eq / hash, so coherent when Value's are:
     # trusted derive semantics); a hand-written impl is outside this unit's reach (=> UNDECIDED => the native search decides)
     vt = rl.find_type(F, src, "enum", "ValueTuple").text
